@@ -80,7 +80,7 @@ inductive Outcome where
   | conversionError      -- reported since the fix (gRPC code Unknown: a plain Go error)
   deriving DecidableEq
 
-/-- `ModelServer.Dispense` → `Model.DispenseInstantly`. -/
+/-- `Model.DispenseInstantly` (with the server's empty-consumable check). -/
 def dispense (inv : Inventory) (name : String) (q : Qty) : Inventory × Outcome :=
   if name = "" then (inv, .invalidArgument)
   else match lookup name inv with
@@ -90,8 +90,15 @@ def dispense (inv : Inventory) (name : String) (q : Qty) : Inventory × Outcome 
       | none => (inv, .conversionError)
       | some st' => (set name st' inv, .ok st')
 
-def run (inv : Inventory) (ops : List (String × Qty)) : Inventory :=
-  ops.foldl (fun inv o => (dispense inv o.1 o.2).1) inv
+/-- `ModelServer.Dispense`: a request without a quantity is rejected (since the fix; it panicked). -/
+def dispenseReq (inv : Inventory) (name : String) (q : Option Qty) : Inventory × Outcome :=
+  if name = "" then (inv, .invalidArgument)
+  else match q with
+    | none => (inv, .invalidArgument)
+    | some q => dispense inv name q
+
+def run (inv : Inventory) (ops : List (String × Option Qty)) : Inventory :=
+  ops.foldl (fun inv o => (dispenseReq inv o.1 o.2).1) inv
 
 /-! ## option plumbing (`model_opts.go`) -/
 
